@@ -36,7 +36,9 @@ def run(tier, seed, model_ok, spec_ok, replay=None):
     dist = Counter()
     for i in range(n):
         doc = g.document(4, 4)
-        pt = pg.path(doc, max_len=3, mods_p=0.0)
+        pt = pg.path(doc, max_len=3, mods_p=0.2)      # with modifiers: part specs must refuse, to_spec must carry them
+        if g.r.random() < 0.04:
+            pt.has_src, pt.src = True, g.r.choice([{"a": 1}, [1, 2], {}])
         # also: paths that come from specs (equality must then hold)
         from_specs = g.r.random() < 0.5
         try:
@@ -58,7 +60,31 @@ def run(tier, seed, model_ok, spec_ok, replay=None):
             except E.Unencodable:
                 pass
         dist["refused:" + out[1] if out[0] == "exc" else "serialised"] += 1
+        # the full spec form (key with suffixes): either refused or rebuilt to an equally selecting path
+        full = E.run_outcome(lambda: p.to_spec())
+        if full[0] == "ok":
+            dist["to_spec"] += 1
+            try:
+                try:
+                    fj = json.loads(json.dumps(full[1]))
+                    if fj != full[1]:
+                        fj = copy.deepcopy(full[1])     # not JSON data (e.g. int keys in a literal): no text route
+                except (TypeError, ValueError):
+                    fj = copy.deepcopy(full[1])
+                pf = v.DataPath.from_spec(fj)
+            except Exception as e:
+                if not d12_flag(path_leaves(pt)):
+                    direct.append({"kind": "direct", "what": f"to_spec output does not parse back ({type(e).__name__})",
+                                   "path": pt.descr()[:300], "specs": repr(full[1])[:300]})
+                pf = None
+            if pf is not None and sel(p, doc) != sel(pf, doc):
+                direct.append({"kind": "direct", "what": "path rebuilt from to_spec selects differently", "path": pt.descr()[:300],
+                               "specs": repr(full[1])[:300], "doc": jval(doc)})
         if out[0] == "exc":
+            continue
+        if p.DATUM_TYPE.value or p.MULTI_TYPE.value or p.source_data is not None:
+            direct.append({"kind": "direct", "what": "part specs emitted for a path with a modifier or source data (they cannot "
+                           "represent it)", "path": pt.descr()[:300], "specs": repr(out[1])[:300]})
             continue
         specs = out[1]
         try:
